@@ -7,7 +7,7 @@ use pieces::*;
 const NO_CHECK: bool = false;
 const IN_CHECK: bool = true;
 
-static PROMOTION_PIECES: [PromotionPiece; 4] = [
+pub(crate) static PROMOTION_PIECES: [PromotionPiece; 4] = [
     PromotionPiece::Queen,
     PromotionPiece::Rook,
     PromotionPiece::Bishop,
@@ -17,25 +17,25 @@ static PROMOTION_PIECES: [PromotionPiece; 4] = [
 #[derive(Clone)]
 pub struct MoveGen {
     moves: MoveList,
-    promotions: core::slice::Iter<'static, PromotionPiece>,
     mask: BitBoard,
     index: usize,
 }
 
-type MoveList = arrayvec::ArrayVec<LegalMovesAt, 18>;
+// at most 16 pieces, of which up to 8 pawns about to promote take one entry
+// per promotion piece, plus one extra entry for each of two en-passant capturers
+type MoveList = arrayvec::ArrayVec<LegalMovesAt, 42>;
 
 #[derive(Debug, Clone)]
 struct LegalMovesAt {
     src: Pos,
     moves: BitBoard,
-    promotion: bool,
+    promotion: Option<PromotionPiece>,
 }
 
 impl Board {
     pub fn legals(&self) -> MoveGen {
         MoveGen {
             moves: self.collect_moves(!BitBoard::empty()),
-            promotions: PROMOTION_PIECES.iter(),
             mask: !BitBoard::empty(),
             index: 0,
         }
@@ -44,7 +44,6 @@ impl Board {
     pub fn legals_masked(&self, mask: BitBoard) -> MoveGen {
         MoveGen {
             moves: self.collect_moves(mask),
-            promotions: PROMOTION_PIECES.iter(),
             mask,
             index: 0,
         }
@@ -53,7 +52,6 @@ impl Board {
     pub fn king_legals(&self, turn: Color) -> MoveGen {
         MoveGen {
             moves: self.collect_king_moves(turn),
-            promotions: PROMOTION_PIECES.iter(),
             mask: !BitBoard::empty(),
             index: 0,
         }
@@ -128,20 +126,13 @@ impl MoveGen {
     }
 
     pub fn len(&self) -> usize {
-        const NUM_PROMOTION_PIECES: usize = 4;
-
         let mut len = 0;
 
         for legals in &self.moves[self.index..] {
             if (legals.moves & self.mask).none() {
                 break;
             }
-            let count = (legals.moves & self.mask).count() as usize;
-            len += if legals.promotion {
-                count * NUM_PROMOTION_PIECES
-            } else {
-                count
-            };
+            len += (legals.moves & self.mask).count() as usize;
         }
 
         len
@@ -157,7 +148,8 @@ impl MoveGen {
     /// Never, ever, iterate this move
     pub fn remove_move(&mut self, chess_move: ChessMove) -> bool {
         for x in 0..self.moves.len() {
-            if self.moves[x].src == chess_move.source {
+            if self.moves[x].src == chess_move.source && self.moves[x].promotion == chess_move.piece
+            {
                 self.moves[x].moves -= chess_move.dest;
                 return true;
             }
@@ -209,46 +201,21 @@ impl Iterator for MoveGen {
             return None;
         }
 
-        if legal.promotion {
-            let &promotion = self.promotions.next().unwrap();
+        let mut possible_moves = legal.moves & self.mask;
+        let dest = unsafe { possible_moves.pop_unchecked() };
+        legal.moves.clear(dest);
 
-            let mut moves = legal.moves & self.mask;
-            let dest = unsafe { moves.pop_unchecked() };
+        let result = ChessMove {
+            source: legal.src,
+            dest,
+            piece: legal.promotion,
+        };
 
-            let result = ChessMove {
-                source: legal.src,
-                dest,
-                piece: Some(promotion),
-            };
-
-            if self.promotions.len() == 0 {
-                self.promotions = PROMOTION_PIECES.iter();
-
-                legal.moves.clear(dest);
-
-                if (moves & self.mask).none() {
-                    self.index += 1;
-                }
-            }
-
-            Some(result)
-        } else {
-            let mut possible_moves = legal.moves & self.mask;
-            let dest = unsafe { possible_moves.pop_unchecked() };
-            legal.moves.clear(dest);
-
-            let result = ChessMove {
-                source: legal.src,
-                dest,
-                piece: None,
-            };
-
-            if possible_moves.none() {
-                self.index += 1;
-            }
-
-            Some(result)
+        if possible_moves.none() {
+            self.index += 1;
         }
+
+        Some(result)
     }
 
     fn size_hint(&self) -> (usize, Option<usize>) {
